@@ -219,6 +219,10 @@ class MempoolEngine:
             t = w.mempool_add(parent='confirmed', n_out=2)
             for _ in range(rng.randrange(8, 30)):
                 t = w.mempool_add(parent='unconfirmed', n_in=1) or t
+        elif kind == 'add_long_chain':
+            # one unbroken chain longer than two fetch batches of 200 (a last, tiny batch may hold only parents others wait for)
+            if len(w.mempool_chain(self.case.get('long_chain', 401), rng)) > 400:
+                self.bump('chains_longer_than_two_fetch_batches')
         elif kind == 'add_many':
             for _ in range(self.case.get('many', 230)):
                 w.mempool_add(parent=rng.choice(('confirmed', 'unconfirmed', None)), n_in=1, n_out=2)
